@@ -283,6 +283,19 @@ func genC01(t *rapid.T) c01Case {
 	} else {
 		main.Body = body
 	}
+	if g.n(0, 4, "shadowedWriter") == 0 {
+		// a user-supplied SafeWriter registered under the name of a built-in one: names resolve variables first,
+		// then globals, then built-ins, so it is the user's escaping that applies
+		name := []string{"raw", "unsafe", "safeHtml", "safeJs"}[g.n(0, 3, "shadowedName")]
+		if g.n(0, 1, "shadowAsGlobal") == 0 {
+			if g.p.Globals == nil {
+				g.p.Globals = map[string]mj.Recipe{}
+			}
+			g.p.Globals[name] = mj.Recipe{T: "swcustom"}
+		} else {
+			g.p.Vars[name] = mj.Recipe{T: "swcustom"}
+		}
+	}
 	if g.n(0, 3, "brokenFirst") == 0 {
 		g.p.BrokenFirst = g.n(1, 120, "brokenAfter")
 	}
@@ -330,6 +343,11 @@ func judgeC01(c c01Case) (v core.Verdict) {
 		v.Label("nest:" + k)
 	}
 	v.Label("escaper:" + c.Prog.Escaper)
+	for _, nm := range []string{"raw", "unsafe", "safeHtml", "safeJs"} {
+		if c.Prog.Vars[nm].T == "swcustom" || c.Prog.Globals[nm].T == "swcustom" {
+			v.Label("user-writer-registered-as:" + nm)
+		}
+	}
 	if c.Prog.BrokenFirst > 0 {
 		v.Label("after-an-execution-into-a-broken-destination")
 	}
